@@ -267,10 +267,12 @@ def as_verdict(desc):
         flf.update(point_masses=desc["masses"][:nm] * 2, point_mass_locations=locs + mir, engine_thrusts=desc["thrust"][:nm] * 2)
     sh = _as_surface(desc, half, True, nm)
     sf = _as_surface(desc, full, False, 2 * nm)
+    from oasv.models import run_coupled
+
     ph = aerostruct_problem([sh], flh, compressible=desc["compressible"])
-    ph.run_model()
+    run_coupled(ph)
     pf = aerostruct_problem([sf], flf, compressible=desc["compressible"])
-    pf.run_model()
+    run_coupled(pf)
     if float(ph.get_val("AS_point_0.CL")[0]) < 1e-3:
         from oasv.core import Discard
 
